@@ -40,3 +40,35 @@ func TestWitnessUnsubscribedChannel(t *testing.T) {
 		report(t, pl, res)
 	}
 }
+
+// The smallest windowed case per transport: three packets written one at a
+// time, no scripted request, one window on the second frame. The only request of
+// the case is the one sent while that frame write is parked between prefix and
+// payload, so a verdict here is owed to the window directive alone (used by the
+// sensitivity runs: without the write lock around the frame or around the
+// response this case is red on tcp every time).
+func TestWindowAlone(t *testing.T) {
+	for _, transport := range []string{"tcp", "ws", "wsp"} {
+		for _, method := range []string{"OPTIONS", "PLAY", "GET_PARAMETER"} {
+			pl := &plan{
+				Transport: transport,
+				Video:     [2]int{0, 1},
+				Audio:     [2]int{2, 3},
+				Pkts:      []pktSpec{{Ch: 0, Size: 300, Fill: "ramp", Key: true}, {Ch: 0, Size: 5000, Fill: "ramp"}, {Ch: 2, Size: 400, Fill: "ramp"}},
+				Steps:     []step{{Kind: "pub", Pkt: 0}, {Kind: "sync"}, {Kind: "pub", Pkt: 1}, {Kind: "sync"}, {Kind: "pub", Pkt: 2}, {Kind: "sync"}},
+				Windows:   []window{{Occ: 2, Method: method}},
+			}
+			var res *result
+			if transport == "wsp" {
+				res = runWSP(t, pl)
+			} else {
+				res = runRTSP(t, pl)
+			}
+			evid.Eval(1)
+			report(t, pl, res)
+			if recordWindowClasses(pl, res.tg, "window alone "+transport) {
+				evid.Nontrivial(evid.FP("window alone", transport, method))
+			}
+		}
+	}
+}
